@@ -626,9 +626,7 @@ func (r *vfRun) branch(prefix string, idx int, b vfBranch) *GraphBranch {
 				}
 				return nil, err
 			}
-			for k, v := range c {
-				out[k] = v
-			}
+			vfMergeInto(out, c)
 		}
 	}
 	if b.Multi {
@@ -667,6 +665,22 @@ func (r *vfRun) branch(prefix string, idx int, b vfBranch) *GraphBranch {
 	}, ends)
 }
 
+// chunk concatenation as the library does it for maps: values under the same key are concatenated too (maps key by key)
+func vfMergeInto(dst, src map[string]any) {
+	for k, v := range src {
+		if dm, ok := dst[k].(map[string]any); ok {
+			if sm, ok2 := v.(map[string]any); ok2 {
+				nm := make(map[string]any, len(dm)+len(sm))
+				vfMergeInto(nm, dm)
+				vfMergeInto(nm, sm)
+				dst[k] = nm
+				continue
+			}
+		}
+		dst[k] = v
+	}
+}
+
 func vfConcatMaps(sr *schema.StreamReader[map[string]any]) (map[string]any, error) {
 	defer sr.Close()
 	var out map[string]any
@@ -681,9 +695,7 @@ func vfConcatMaps(sr *schema.StreamReader[map[string]any]) (map[string]any, erro
 		if out == nil {
 			out = map[string]any{}
 		}
-		for k, v := range c {
-			out[k] = v
-		}
+		vfMergeInto(out, c)
 	}
 }
 
@@ -1159,9 +1171,7 @@ func (r *vfRun) call(rc *vfCall, run Runnable[map[string]any, map[string]any], p
 					}
 					break
 				}
-				for k, v := range c {
-					acc[k] = v
-				}
+				vfMergeInto(acc, c)
 			}
 			sr.Close()
 			if o.err == nil {
